@@ -12,6 +12,8 @@ T_H = 12                  # a type that gets a MessageHandler in the scenarios (
 T_H2 = 63                 # another one (ReaderEventNotification)
 T_U = 30                  # a type that never has a type handler
 REQ_T = 2                 # requests are GetReaderConfig
+MSG_CLOSE, MSG_CLOSE_RESP = 14, 4
+MSG_GSV, MSG_GSV_RESP, MSG_SPV, MSG_SPV_RESP = 46, 56, 47, 57
 
 
 # ------------------------------------------------------------------ shared generators
@@ -113,11 +115,11 @@ class Builder:
         self.ncallers = 0
         self.pseed = 0
 
-    def send(self, via="", in_typ=0):
-        """a caller sends a request and awaits the reply through the API `via` (VIAS)"""
+    def send(self, via="", in_typ=0, typ=REQ_T):
+        """a caller sends a request and awaits the reply through the API `via` (VIAS; "shutdown" = Client.Shutdown)"""
         j = self.ncallers
         self.ncallers += 1
-        st = dict(op="send", caller=j, typ=REQ_T)
+        st = dict(op="send", caller=j, typ=typ)
         if via:
             st.update(via=via, in_typ=in_typ)
         self.sc["steps"].append(st)
@@ -133,6 +135,16 @@ class Builder:
         if segpause_ms is not None:
             st["segpause_ms"] = list(segpause_ms)
         self.sc["steps"].append(st)
+
+    def neg(self, typ):
+        """the client's OWN request of type `typ` (version negotiation): the peer waits for it and notes its id"""
+        j = self.ncallers
+        self.ncallers += 1
+        self.sc["steps"].append(dict(op="neg", caller=j, typ=typ))
+        return j
+
+    def ready(self):
+        self.sc["steps"].append(dict(op="ready"))
 
     def raw(self, b, seg="whole"):
         self.sc["steps"].append(dict(op="raw", raw=b.hex(), seg=seg, segseed=3, segmax=5))
@@ -435,6 +447,106 @@ def same_id_scenarios(rnd, thorough):
     return out
 
 
+def llrp_status(code, desc=b""):
+    """an LLRPStatus parameter (type 287): status code, error description, no field / parameter errors"""
+    return struct.pack(">HHHH", 287, 8 + len(desc), code, len(desc)) + desc
+
+
+STAGES = ["before-version-reply", "before-set-version-reply", "right-after-negotiation", "ready"]
+UNGATED = ["", "unmarshal"]      # c.send: the building block that does not wait for the ready gate
+
+
+def class_block(b, rnd, tag, vias):
+    """one inbound message of every class the scenarios use: handled by type (part of the payload read), default-handled or
+    unhandled, the reader-initiated report and event, awaited (+ type handler) and awaited (+ default / nobody) — the requests
+    are sent first —, a panicking handler, a sentinel; sizes drawn at random"""
+    j1 = b.send(rnd.choice(vias), T_H)
+    j2 = b.send(rnd.choice(vias), T_U)
+    n = [rnd.choice([0, 1, 6, 33, 200]) for _ in range(7)]
+    return [frame(T_H, n[0] + 2, 1, mid=tag + 1),
+            frame(T_U, n[1], n[1] // 2, mid=tag + 2),
+            frame(61, n[2] + 1, n[2] + 1, mid=tag + 3),
+            frame(T_H2, n[3], 0, mid=tag + 4),
+            frame(T_H, n[4], n[4] // 2, reply_to=j1),
+            frame(T_U, n[5], 0, reply_to=j2),
+            frame(T_H, 3, 1, True, mid=tag + 5),
+            frame(T_U, 2, 1, mid=tag + 6)]
+
+
+def stage_scenarios(rnd, thorough):
+    """a client that NEGOTIATES (built for version 1.1: after the connection event it sends GetSupportedVersion, then
+    SetProtocolVersion, and only then opens its ready gate): inbound messages of every class placed at every STAGE of the
+    session — between the connection event and the GetSupportedVersionResponse, between that and the
+    SetProtocolVersionResponse, right behind the SetProtocolVersionResponse (same write), and once the client is ready —
+    each stage alone and all together, on every handler configuration, whole / byte-wise / random segments.  The property
+    has no stage: every message is delivered exactly once to each party entitled to it, and the negotiation's own replies
+    reach the negotiation (observed as progress: the next request is written / the gate opens)."""
+    out = []
+    gsv = bytes([1 << 5, 2 << 5]) + llrp_status(0)          # current version 1.0.1, maximum 1.1: the client then sets 1.1
+    cfgs = [("nobody", [], False), ("type-handlers", [T_H, 61, T_H2], False), ("default", [], True), ("both", [T_H, T_H2], True)]
+    segs = ["whole", "byte", "rand"]
+    for ci, (cname, hs, df) in enumerate(cfgs):
+        for wi, which in enumerate(["all"] + STAGES):
+            if which == "ready" and not thorough:
+                continue                      # the block on a ready client alone is what every other family does
+            seg = segs[(ci + wi) % 3]
+            b = Builder("stage/%s/%s" % (cname, which), hs, df, keep_ack=(ci % 2 == 1))
+            b.sc["version"] = 2
+
+            def blk(stage):
+                if which not in ("all", STAGES[stage]):
+                    return []
+                fs = class_block(b, rnd, 0xFFF80000 + 0x100 * stage, UNGATED if stage < 3 else VIAS)
+                if b.sc["keep_ack"]:
+                    fs.insert(3, frame(62, 0, 0, mid=0xFFF80000 + 0x100 * stage + 7))
+                return fs
+            g = b.neg(MSG_GSV)
+            b.chunk(blk(0) + [frame(MSG_GSV_RESP, 0, reply_to=g, phex=gsv.hex(), ver=2)], seg, segseed=ci + 1, segmax=9)
+            sp = b.neg(MSG_SPV)
+            b1, b2 = blk(1), blk(2)
+            b.chunk(b1 + [frame(MSG_SPV_RESP, 0, reply_to=sp, phex=llrp_status(0).hex(), ver=2)] + b2, seg, segseed=ci + 2, segmax=17)
+            b.ready()
+            b.chunk(blk(3) + [frame(T_U, 1, 1, mid=0xFFF80FFF)], seg, segseed=ci + 3, segmax=5)
+            out.append(b.sc)
+    return out
+
+
+def close_scenarios(rnd, thorough):
+    """the client sends CloseConnection (Client.Shutdown, or the same request through SendMessage / SendFor) and the reader
+    answers with a CloseConnectionResponse whose status REFUSES the close (several non-success codes, with and without an
+    error text): Shutdown reports the refusal, the client stays open, and whatever the reader sends afterwards — a message
+    of every class, the awaited ones for requests that were outstanding when the close was sent (the write side stops
+    behind a CloseConnection) — must be delivered like any other, parsed at its own first byte.  With a SUCCESS status the
+    close is accepted: the reply reaches its caller, and nothing is demanded of what follows."""
+    out = []
+    cfgs = [("nobody", [], False), ("type-handlers", [T_H, 61], False), ("default", [], True)]
+    refusals = [(401, b"busy"), (100, b""), (409, b"x" * 40), (65535, b"")]
+    kinds = [("refused", v) for v in ("shutdown", "message", "for")] + [("accepted", "shutdown"), ("accepted", "message")]
+    for ci, (cname, hs, df) in enumerate(cfgs):
+        for ki, (how, via) in enumerate(kinds):
+            if not thorough and how == "accepted" and ci != ki % 3:
+                continue
+            code, desc = refusals[(ci + ki) % len(refusals)] if how == "refused" else (0, b"")
+            b = Builder("close/%s/%s-%s-status%d" % (cname, how, via, code), hs, df)
+            b.sc.update(step_ms=1500, waits=True)
+            seg = ["whole", "byte", "rand"][(ci + ki) % 3]
+            after = class_block(b, rnd, 0xFFF70000, UNGATED) if how == "refused" else []
+            b.chunk([frame(T_H, 5, 2, mid=0xFFF70099)], seg)
+            jc = b.send(via, MSG_CLOSE_RESP, typ=MSG_CLOSE)
+            ccr = frame(MSG_CLOSE_RESP, 0, reply_to=jc, phex=llrp_status(code, desc).hex())
+            if how == "accepted" and via == "shutdown":
+                b.sc.update(close="accepted-shutdown", pred_only=True)      # the client closes itself: the model has no user Close
+            if (ci + ki) % 2 == 0:
+                b.chunk([ccr] + after, seg, segseed=ki + 1, segmax=7)
+            else:
+                b.chunk([ccr], seg, segseed=ki + 1, segmax=7)
+                if after:
+                    b.chunk(after, seg, segseed=ki + 2, segmax=7)
+            out.append(b.sc)
+    return out
+
+
+
 def tail_scenarios():
     """the stream ends inside a header / inside a payload on each dispatch path / bad length"""
     out = []
@@ -655,16 +767,21 @@ def flatten(sc, want_stream=False):
     reg, frames, tail = [], [], b""
     req_id = {}
     nid = 0
+    internal, close_sent, stage = set(), False, 0
     for st in sc["steps"]:
-        if st["op"] == "send":
+        if st["op"] in ("send", "neg"):
             req_id[st["caller"]] = nid
             reg.append(nid)
+            if st["op"] == "neg":
+                internal.add(st["caller"])       # awaited by the client itself (Connect's negotiation), not by a harness caller
+            if st["typ"] == MSG_CLOSE:
+                close_sent = True                # the client has written CloseConnection before the frames that follow
             nid += 1
         elif st["op"] == "chunk":
             for f in st["frames"]:
                 mid = req_id[f["reply_to"]] if f["reply_to"] is not None else f["id"]
                 pl = Pat(f["pseed"], f["plen"]) if f.get("pat") else (bytes.fromhex(f["phex"]) if f.get("phex") else payload(f["pseed"], f["plen"]))
-                frames.append(dict(f, id=mid, payload=pl, register=reg))
+                frames.append(dict(f, id=mid, payload=pl, register=reg, internal=f["reply_to"] in internal, close_sent=close_sent))
                 reg = []
         elif st["op"] == "raw":
             tail += bytes.fromhex(st["raw"])
@@ -688,8 +805,11 @@ def oracle_request(sc):
                          PK_MODEL.get(f.get("pkind") or "string", "pr") if f["panic"] else "r", f["k"]) for f in frames]
     # a header inside the tail is looked up after the sends that followed the last chunk
     env.append("%s/r/0" % (",".join(map(str, lastreg)) or "-"))
-    if CLOSE_PARKS[0]:        # tree without fix ea578f8: as if CloseConnection had always been sent
-        env = [e + "/1" for e in env]
+    # e_close_sent: this client has written CloseConnection before this header is read
+    # (a tree without fix ea578f8: as if CloseConnection had always been sent)
+    sent = [f["close_sent"] for f in frames]
+    sent.append(any(st["op"] == "send" and st["typ"] == MSG_CLOSE for st in sc["steps"]))
+    env = [e + "/1" if (c or CLOSE_PARKS[0]) else e for e, c in zip(env, sent)]
     if sc.get("stall") and sc["stall"]["long"]:
         # a stall beyond the timeout: serve_stall, tree as found (the error of a cut-short drain ends the loop)
         return "stall %d %s %d %s - %s %s %d 0" % (LIMIT, ",".join(map(str, hs)) or "-", 1 if sc["default"] else 0,
@@ -764,7 +884,14 @@ def compare(sc, go, model):
                     diffs.append("frame %d: handler calls go %s model %s" % (i, g["calls"], exp))
                 if g["paniclog"] != (1 if pan == "1" else 0):
                     diffs.append("frame %d: HandlerPanic logged %d times, model panicked=%s" % (i, g["paniclog"], pan))
-        if m["reply"] != "-":
+        if m["reply"] != "-" and i < len(frames) and frames[i]["internal"]:
+            pending[m["hdr"][3]] = i       # Connect's own negotiation awaits it: no harness caller to compare with
+        elif m["reply"] != "-" and (callers.get(m["hdr"][3]) or {}).get("via") == "shutdown":
+            c = callers[m["hdr"][3]]
+            if not c["returned"] or c["err"] in ("ctx", "closed"):
+                diffs.append("frame %d: model delivers the reply to Shutdown's request, Shutdown returned %s" % (i, c))
+            pending[m["hdr"][3]] = i
+        elif m["reply"] != "-":
             c = callers.get(m["hdr"][3])
             if c is None:
                 diffs.append("frame %d: model delivers a reply for id %d, no such caller in go" % (i, m["hdr"][3]))
@@ -802,6 +929,12 @@ def compare(sc, go, model):
     if go["early_exit"]:
         diffs.append("Connect returned before the peer closed")
     return diffs
+
+
+def close_status(f):
+    """the status code in a CloseConnectionResponse's LLRPStatus (None: not one)"""
+    pl = f["payload"]
+    return struct.unpack(">H", pl[4:6])[0] if f["typ"] == MSG_CLOSE_RESP and len(pl) >= 8 else None
 
 
 def sees_message(c):
@@ -864,8 +997,20 @@ def property_check(sc, go):
             got = recs[i]["hdr"] if i < len(recs) else "nothing (stalled=%r, Connect=%s)" % (go["stalled"], go["connect_err"])
             sig = "panic-ends-connection:%s" % (frames[i - 1].get("pkind") or "string") if (i > 0 and frames[i - 1]["panic"] and i >= len(recs) and "nobody" not in prev_path) \
                 else "misaligned-after:" + prev_path
+            if i >= len(recs) and "neg-" in go["stalled"]:
+                # the script could not go on: the client's own next request / its ready gate never came
+                sig = "negotiation-reply-not-delivered"
+            elif i >= len(recs) and i > 0 and frames[i - 1]["typ"] == MSG_CLOSE_RESP and frames[i - 1]["close_sent"] and close_status(frames[i - 1]) != 0:
+                sig = "not-read-after-refused-close:" + path
+            why = ""
+            if sig.startswith("not-read-after-refused-close"):
+                why = ("; the client had sent CloseConnection and the reader REFUSED it (CloseConnectionResponse with status %d: the "
+                       "connection stays up; the caller that sent it got %s) and went on sending — what it sent was never read"
+                       % (close_status(frames[i - 1]), [(c.get("via") or "send+data", c.get("err"), c.get("err_text", "")[:80]) for c in go["callers"] if c["req_id"] == frames[i - 1]["id"]]))
+            elif sig == "negotiation-reply-not-delivered":
+                why = "; the client's own negotiation did not go on after the reader's answer (%s)" % go["stalled"]
             fails.append((sig, "frame %d (%s) should be parsed as %s at its own first byte, the client parsed %s; the frame before "
-                               "it took the path %s" % (i, path, want, got, prev_path)))
+                               "it took the path %s%s" % (i, path, want, got, prev_path, why)))
             break
         r = recs[i]
         pl = f["payload"]
@@ -894,7 +1039,17 @@ def property_check(sc, go):
                                   "frame %d: handler asked for %d of %d payload bytes and must see the first %d bytes the peer "
                                   "sent (md5 %s); it read %d bytes, md5 %s" % (i, f["k"], f["plen"], k, md5(pl[:k]), c["nread"], c["md5"])))
         # awaiting caller
-        if awaited and judged:
+        if awaited and judged and f["internal"]:
+            pass      # awaited by Connect's own negotiation: observed as progress (the next request is written / the gate opens)
+        elif awaited and judged and (callers.get(f["id"]) or {}).get("via") == "shutdown":
+            # Client.Shutdown shows its caller the reader's verdict only: nil for a success status, an error (neither the
+            # context's nor "client closed") for a refusal
+            c = callers[f["id"]]
+            want_err = "nil" if close_status(f) == 0 else "other"
+            if not c["returned"] or c["err"] != want_err:
+                fails.append(("caller-wrong-reply:" + path, "frame %d: the reader answered CloseConnection with status %d; Shutdown must "
+                              "return %s, got %s" % (i, close_status(f), "nil" if want_err == "nil" else "an error reporting it", c)))
+        elif awaited and judged:
             c = callers.get(f["id"])
             if c is None or not c["returned"]:
                 fails.append(("caller-not-answered:" + path, "frame %d: the caller awaiting id %d was not released: %s" % (i, f["id"], c)))
@@ -922,7 +1077,9 @@ def property_check(sc, go):
         if extra > (1 if len(tail) >= 10 else 0):
             fails.append(("phantom-frames", "%d more headers parsed than the peer sent" % extra))
         closed = any(f["typ"] == 4 for f in frames)
-        if go["early_exit"]:
+        if sc.get("close") == "accepted-shutdown":
+            pass      # the reader accepted the close and the client closed itself: nothing more is demanded
+        elif go["early_exit"]:
             fails.append(("connect-returned-early", "Connect returned while the peer was still sending: %s" % go["stalled"]))
         elif go["stalled"] and not closed:
             fails.append(("stalled:" + prev_path, "the client stopped making progress: %s" % go["stalled"]))
@@ -933,7 +1090,7 @@ def property_check(sc, go):
     for rid, c in callers.items():
         if c["err"] == "nil" and rid not in used:
             fails.append(("reply-from-nowhere", "caller with request id %d got a reply though no frame carried that id: %s" % (rid, c)))
-        elif handed_success(c):
+        elif handed_success(c) and c.get("via") != "shutdown":
             # whatever a caller is handed as a success must be a message the reader sent COMPLETELY under that id
             same = [f for f in frames if f["id"] == rid]
             if not any(c["hdr"][1] == f["typ"] and c["dlen"] == f["plen"] and c["md5"] == md5(f["payload"]) for f in same):
@@ -1018,6 +1175,8 @@ def run(tier, seed, replay=None):
         scs += same_id_scenarios(random.Random(seed + 29), thorough)
         scs += huge_scenarios(random.Random(seed + 31), thorough)
         scs += stall_scenarios(random.Random(seed + 37), thorough)
+        scs += stage_scenarios(random.Random(seed + 41), thorough)
+        scs += close_scenarios(random.Random(seed + 43), thorough)
         scs += random_scenarios(rnd, 1500 if thorough else 150)
 
     # which types does the code exempt from the awaiting lookup?  (none before the C03/F2 fix)
@@ -1055,8 +1214,8 @@ def run(tier, seed, replay=None):
     oth = threading.Thread(target=lambda: obox.update(r=run_oracle([oracle_request(sc) for sc in scs])))
     oth.start()
     # the scenarios that spend their time waiting (stalled streams) run in four further processes meanwhile
-    timed = [i for i, sc in enumerate(scs) if sc.get("timeout_ms")]
-    plain = [i for i, sc in enumerate(scs) if not sc.get("timeout_ms")]
+    timed = [i for i, sc in enumerate(scs) if sc.get("timeout_ms") or sc.get("waits")]
+    plain = [i for i, sc in enumerate(scs) if not (sc.get("timeout_ms") or sc.get("waits"))]
     tbox = {}
 
     def timed_worker(k):
